@@ -515,6 +515,8 @@ Definition chunk_ok (F n : nat) (c : chunk) : Prop :=
   (* fuel *) Forall (fun k => (k < F)%nat) ks /\ (length ks < F)%nat /\ (n + e + length s < F)%nat.
 Definition chunk_text (n : nat) (c : chunk) : list chr :=
   let '(ks, e, s) := c in blank_lines ks ++ sps (n + e) ++ s ++ [10].
+Definition chunk_text_nolf (n : nat) (c : chunk) : list chr :=
+  let '(ks, e, s) := c in blank_lines ks ++ sps (n + e) ++ s.
 Definition chunk_lines (c : chunk) : list bline :=
   let '(ks, e, s) := c in map Blank ks ++ [Text e s].
 
@@ -548,25 +550,83 @@ Proof. intros H Hne. destruct t as [|c t]; [congruence|]. inversion H; subst. as
 Lemma breakz_parts c : is_breakz c = false -> is_z c = false /\ is_break c = false.
 Proof. unfold is_breakz. intros H. apply orb_false_iff in H. tauto. Qed.
 
+(* the document-end test of the loop (only made when the content indentation is 0) *)
+Definition doc_end_b (cs : list chr) : bool :=
+  (nth 0 cs 0 =? 46) && (nth 1 cs 0 =? 46) && (nth 2 cs 0 =? 46) && is_blank_or_breakz (nth 3 cs 0).
+
+Lemma assert_buflen_mv s cs lk m w n site : (n <= lk)%nat ->
+  assert_buflen str_ops n site (mv s cs lk m w) = Ok (tt, mv s cs lk m w).
+Proof.
+  intros H. unfold assert_buflen. change (buflen str_ops (sc_in (mv s cs lk m w))) with lk.
+  destruct (Nat.ltb_spec lk n); [lia|reflexivity].
+Qed.
+
+Lemma next_is_document_end_mv s cs lk m w : (4 <= lk)%nat ->
+  next_is_document_end str_ops (mv s cs lk m w) = Ok (doc_end_b cs, mv s cs lk m w).
+Proof.
+  intros Hlk. unfold next_is_document_end, next_3_are, doc_end_b.
+  mstep ltac:(apply assert_buflen_mv; lia).
+  mstep ltac:(mstep ltac:(apply assert_buflen_mv; lia); mstep ltac:(apply peek_mv); mstep ltac:(apply peekn_mv);
+              mstep ltac:(apply peekn_mv); reflexivity).
+  unfold hd0.
+  destruct ((nth 0 cs 0 =? 46) && (nth 1 cs 0 =? 46) && (nth 2 cs 0 =? 46)); [|reflexivity].
+  mstep ltac:(apply peekn_mv). reflexivity.
+Qed.
+
+(* a content line at column 0 that is not a document marker does not pass the document-end test *)
+Lemma marker_doc_end (txt X : list chr) : nobreak txt -> marker_line txt = false -> (X = [] \/ hd0 X = 10) ->
+  doc_end_b (txt ++ X) = false.
+Proof.
+  intros Hnb Hm HX. unfold doc_end_b.
+  assert (HX' : (nth 0 X 0 =? 46) = false).
+  { destruct HX as [->|E]; [reflexivity|]. unfold hd0 in E. rewrite E. reflexivity. }
+  destruct txt as [|a [|b [|c [|d r]]]]; cbn [app nth].
+  - rewrite HX'. reflexivity.
+  - rewrite HX', andb_false_r. reflexivity.
+  - rewrite HX', andb_false_r. reflexivity.
+  - cbn [marker_line] in Hm.
+    destruct ((a =? 46) && (b =? 46) && (c =? 46)) eqn:E3; [|reflexivity].
+    rewrite orb_true_r in Hm. discriminate.
+  - cbn [marker_line] in Hm. inversion Hnb as [|? ? _ H1]; subst. inversion H1 as [|? ? _ H2]; subst.
+    inversion H2 as [|? ? _ H3]; subst. inversion H3 as [|? ? Hd _]; subst.
+    destruct ((a =? 46) && (b =? 46) && (c =? 46)) eqn:E3; [|reflexivity].
+    rewrite orb_true_r in Hm. cbn [andb] in Hm.
+    unfold is_blank_or_breakz. rewrite Hd, orb_false_r.
+    unfold is_white in Hm. unfold is_blank. cbn [andb]. exact Hm.
+Qed.
+
+(* look-ahead counter after one round *)
+Definition rlk (n lk : nat) : nat := match n with O => Nat.max (Nat.max lk 4) 2 | S _ => Nat.max lk 2 end.
+Lemma rlk_facts n lk : (lk <= rlk n lk)%nat /\ rlk n lk <> O.
+Proof. destruct n; cbn [rlk]; lia. Qed.
+
 (* one round of the loop at the start of a content line [txt] that is followed by a line feed *)
 Lemma bs_loop_round : forall (txt R : list chr) F literal n f acc lb tb lbk s lk m w,
-  nobreak txt -> txt <> [] -> n <> O -> m_col m = N.of_nat n -> (length txt < F)%nat ->
+  nobreak txt -> txt <> [] -> (n = O -> doc_end_b (txt ++ 10 :: R) = false) -> m_col m = N.of_nat n -> (length txt < F)%nat ->
   bs_loop F literal (N.of_nat n) (S f) acc lb tb lbk (mv s (txt ++ 10 :: R) lk m w)
   = (tb' <- skip_block_scalar_indent str_ops F F (N.of_nat n) 0 ;;
      bs_loop F literal (N.of_nat n) f (rev txt ++ fold_sep literal acc lb tb lbk (is_blank (hd0 txt))) 1 tb' (is_blank (hd0 txt)))
-      (mv s R (Nat.max lk 2) (nlm (mark_after m txt)) true).
+      (mv s R (rlk n lk) (nlm (mark_after m txt)) true).
 Proof.
   intros txt R F literal n f acc lb tb lbk s lk m w Hnb Hne Hn Hcol HF.
   cbn [bs_loop].
   mstep ltac:(apply col_mv). mstep ltac:(apply next_is_mv).
   rewrite Hcol, N.eqb_refl. rewrite (hd0_app_ne txt) by exact Hne.
   destruct (breakz_parts _ (nobreak_hd0 _ Hnb Hne)) as [Hz Hb]. rewrite Hz. cbn [negb orb].
-  destruct (N.eqb_spec (N.of_nat n) 0) as [E|_]; [lia|].
-  mstep ltac:(reflexivity). mstep ltac:(apply next_is_mv). rewrite (hd0_app_ne txt) by exact Hne.
-  fold (fold_sep literal acc lb tb lbk (is_blank (hd0 txt))).
-  mstep ltac:(apply content_line_spec; [exact Hnb|reflexivity|exact HF]).
-  mstep ltac:(apply look_mv). mstep ltac:(apply next_is_mv). hd0c. change (is_z 10) with false. cbv iota.
-  mstep ltac:(apply skip_break_lf). reflexivity.
+  destruct (N.eqb_spec (N.of_nat n) 0) as [E|E].
+  - assert (En : n = O) by lia. subst n. cbn [rlk].
+    mstep ltac:(mstep ltac:(apply look_mv); apply next_is_document_end_mv; lia). rewrite (Hn eq_refl).
+    mstep ltac:(apply next_is_mv). rewrite (hd0_app_ne txt) by exact Hne.
+    fold (fold_sep literal acc lb tb lbk (is_blank (hd0 txt))).
+    mstep ltac:(apply content_line_spec; [exact Hnb|reflexivity|exact HF]).
+    mstep ltac:(apply look_mv). mstep ltac:(apply next_is_mv). hd0c. change (is_z 10) with false. cbv match.
+    mstep ltac:(apply skip_break_lf). reflexivity.
+  - destruct n as [|n']; [lia|]. cbn [rlk].
+    mstep ltac:(reflexivity). mstep ltac:(apply next_is_mv). rewrite (hd0_app_ne txt) by exact Hne.
+    fold (fold_sep literal acc lb tb lbk (is_blank (hd0 txt))).
+    mstep ltac:(apply content_line_spec; [exact Hnb|reflexivity|exact HF]).
+    mstep ltac:(apply look_mv). mstep ltac:(apply next_is_mv). hd0c. change (is_z 10) with false. cbv match.
+    mstep ltac:(apply skip_break_lf). reflexivity.
 Qed.
 
 Lemma sps_add a b : sps (a + b) = sps a ++ sps b.
@@ -581,12 +641,67 @@ Proof.
   rewrite !mark_after_app. reflexivity.
 Qed.
 
+Lemma chunk_content_facts F n ks e (txt : list chr) : chunk_ok F n (ks, e, txt) ->
+  sps e ++ txt <> [] /\ nobreak (sps e ++ txt) /\ (length (sps e ++ txt) < F)%nat.
+Proof.
+  intros [_ [Hnb [_ [Hne [_ [_ Hlen]]]]]]. split; [|split].
+  - destruct Hne as [He|Hs']; [destruct e; [congruence|discriminate]|destruct e; [exact Hs'|discriminate]].
+  - apply nobreak_sps_app; exact Hnb.
+  - rewrite app_length; unfold sps; rewrite repeat_length; lia.
+Qed.
+
+Lemma chunk_nolf_ne F n ks e (txt : list chr) : chunk_ok F n (ks, e, txt) -> chunk_text_nolf n (ks, e, txt) <> [].
+Proof.
+  intros Hc. destruct (chunk_content_facts _ _ _ _ _ Hc) as [Hne _]. cbn [chunk_text_nolf].
+  destruct ks as [|k ks]; [|cbn [blank_lines flat_map]; destruct k; discriminate].
+  cbn [blank_lines flat_map app]. rewrite sps_add, <- app_assoc. destruct (sps n); [exact Hne|discriminate].
+Qed.
+
+Lemma tab_tail F n ks e (txt TAIL : list chr) : chunk_ok F n (ks, e, txt) ->
+  hd0 (chunk_text_nolf n (ks, e, txt)) <> 9 -> hd0 (blank_lines ks ++ sps (n + e) ++ txt ++ TAIL) <> 9.
+Proof.
+  intros Hc H.
+  replace (blank_lines ks ++ sps (n + e) ++ txt ++ TAIL) with (chunk_text_nolf n (ks, e, txt) ++ TAIL)
+    by (cbn [chunk_text_nolf]; rewrite <- !app_assoc; reflexivity).
+  rewrite hd0_app_ne; [exact H|]. apply (chunk_nolf_ne F). exact Hc.
+Qed.
+
+Lemma tab_pos n ck : n <> O -> hd0 (chunk_text_nolf n ck) <> 9.
+Proof.
+  intros Hn. destruct ck as [[ks e] txt]. cbn [chunk_text_nolf].
+  destruct ks as [|[|k0] ks]; [destruct n; [congruence|]| |]; intro H; cbv in H; discriminate H.
+Qed.
+
+(* a content line at column 0 (content indentation 0, no extra indentation) must not look like a document marker *)
+Definition chunk_col0 (n : nat) (c : chunk) : Prop :=
+  let '(ks, e, txt) := c in n = O -> e = O -> marker_line txt = false.
+
+Lemma doc_end_content n ks e (txt X : list chr) : nobreak txt -> chunk_col0 n (ks, e, txt) -> (X = [] \/ hd0 X = 10) ->
+  n = O -> doc_end_b ((sps e ++ txt) ++ X) = false.
+Proof.
+  intros Hnb Hc HX Hn. destruct e as [|e].
+  - change (sps 0 ++ txt) with txt. apply marker_doc_end; auto.
+  - reflexivity.
+Qed.
+
+Lemma doc_end_hd (r : list chr) : doc_end_b r = true -> hd0 r = 46.
+Proof.
+  unfold doc_end_b, hd0. intros H. apply andb_true_iff in H. destruct H as [H _].
+  apply andb_true_iff in H. destruct H as [H _]. apply andb_true_iff in H. destruct H as [H _].
+  apply N.eqb_eq in H. exact H.
+Qed.
+
+(* how a scalar with content indentation n ends after a line break: a less indented line, or (n = 0) the end of
+   the input or a document-end marker *)
+Definition ends_after (n j : nat) (r' : list chr) : Prop :=
+  (j < n)%nat \/ (n = O /\ j = O /\ (r' = [] \/ doc_end_b r' = true)).
+
 (* the loop from the start of a line (after a line break) through the remaining chunks, the trailing blank lines
-   and the indentation of the less indented line that follows *)
+   and the indentation of the line that follows *)
 Lemma bs_loop_chunks : forall (chunks : list chunk) (tks : list nat) (j : nat) (r' : list chr) F literal n f acc lbk s lk m,
-  n <> O -> Forall (chunk_ok F n) chunks ->
+  Forall (chunk_ok F n) chunks -> Forall (chunk_col0 n) chunks ->
   Forall (fun k => (k <= n)%nat) tks -> Forall (fun k => (k < F)%nat) tks -> (length tks < F)%nat ->
-  (j < n)%nat -> (j < F)%nat -> hd0 r' <> 32 -> is_break (hd0 r') = false ->
+  ends_after n j r' -> (j < F)%nat -> hd0 r' <> 32 -> is_break (hd0 r') = false ->
   m_col m = 0 -> (length chunks < f)%nat ->
   exists lk', (lk <= lk')%nat /\ lk' <> O /\
   (tb <- skip_block_scalar_indent str_ops F F (N.of_nat n) 0 ;; bs_loop F literal (N.of_nat n) f acc 1 tb lbk)
@@ -595,18 +710,37 @@ Lemma bs_loop_chunks : forall (chunks : list chunk) (tks : list nat) (j : nat) (
         mv s r' lk' (mark_after m (flat_map (chunk_text n) chunks ++ blank_lines tks ++ sps j)) true).
 Proof.
   induction chunks as [|[[ks e] txt] chunks IH];
-    intros tks j r' F literal n f acc lbk s lk m Hn Hch Htks HtksF HtksL Hj HjF Hr Hrb Hcol Hf.
+    intros tks j r' F literal n f acc lbk s lk m Hch Hc0 Htks HtksF HtksL Hj HjF Hr Hrb Hcol Hf.
   - cbn [flat_map app acc_chunks].
+    assert (Hjn : (j <= n)%nat) by (destruct Hj as [H|[-> [-> _]]]; lia).
     destruct (skip_block_scalar_indent_spec tks j r' F F (N.of_nat n) 0 s lk m) as [lk' [Hle [Hne Hs]]]; auto.
     { apply Forall_impl with (2 := Htks). intros k Hk. lia. }
-    exists lk'. split; [exact Hle|]. split; [exact Hne|].
-    mstep ltac:(exact Hs). rewrite Nat2N.id.
-    replace (Nat.min j n) with j by lia. rewrite Nat.sub_diag. change (sps 0 ++ r') with r'.
-    destruct f as [|f]; [cbn in Hf; lia|]. cbn [bs_loop].
-    mstep ltac:(apply col_mv). mstep ltac:(apply next_is_mv).
-    rewrite col_after_blank_lines by exact Hcol.
-    destruct (N.eqb_spec (N.of_nat j) (N.of_nat n)) as [E|_]; [lia|]. cbn [negb orb]. rewrite N.add_0_l. reflexivity.
-  - inversion Hch as [|? ? Hc Hch']; subst. destruct Hc as [Hks [Hnb [Hhd [Hne [HksF [HksL Hlen]]]]]].
+    rewrite Nat2N.id in Hs.
+    replace (Nat.min j n) with j in Hs by lia. rewrite Nat.sub_diag in Hs. change (sps 0 ++ r') with r' in Hs.
+    destruct f as [|f]; [cbn in Hf; lia|].
+    destruct Hj as [Hj|[-> [-> Hend]]].
+    + exists lk'. split; [exact Hle|]. split; [exact Hne|].
+      mstep ltac:(exact Hs). cbn [bs_loop].
+      mstep ltac:(apply col_mv). mstep ltac:(apply next_is_mv).
+      rewrite col_after_blank_lines by exact Hcol.
+      destruct (N.eqb_spec (N.of_nat j) (N.of_nat n)) as [E|_]; [lia|]. cbn [negb orb]. rewrite N.add_0_l. reflexivity.
+    + destruct Hend as [->|Hde].
+      * exists lk'. split; [exact Hle|]. split; [exact Hne|].
+        mstep ltac:(exact Hs). cbn [bs_loop].
+        mstep ltac:(apply col_mv). mstep ltac:(apply next_is_mv).
+        change (is_z (hd0 [])) with true. rewrite orb_true_r. rewrite N.add_0_l. reflexivity.
+      * exists (Nat.max lk' 4). split; [lia|]. split; [lia|].
+        mstep ltac:(exact Hs). cbn [bs_loop].
+        mstep ltac:(apply col_mv). mstep ltac:(apply next_is_mv).
+        rewrite col_after_blank_lines by exact Hcol. change (N.of_nat 0 =? N.of_nat 0) with true.
+        rewrite (doc_end_hd _ Hde). change (is_z 46) with false. cbn [negb orb].
+        change (N.of_nat 0 =? 0) with true. cbv match.
+        mstep ltac:(mstep ltac:(apply look_mv); apply next_is_document_end_mv; lia). rewrite Hde.
+        rewrite N.add_0_l. reflexivity.
+  - pose proof (Forall_inv Hch) as Hc. pose proof (Forall_inv_tail Hch) as Hch'.
+    pose proof (Forall_inv Hc0) as Hcc. pose proof (Forall_inv_tail Hc0) as Hc0'.
+    destruct (chunk_content_facts _ _ _ _ _ Hc) as [Hne' [Hnbt Hlen']].
+    destruct Hc as [Hks [Hnb [Hhd [Hne [HksF [HksL Hlen]]]]]].
     cbn [flat_map]. fold (flat_map (chunk_text n) chunks).
     set (REST := flat_map (chunk_text n) chunks ++ blank_lines tks ++ sps j ++ r').
     assert (Etxt : (chunk_text n (ks, e, txt) ++ flat_map (chunk_text n) chunks) ++ blank_lines tks ++ sps j ++ r'
@@ -627,17 +761,17 @@ Proof.
     destruct f as [|f]; [cbn in Hf; lia|].
     set (m1 := mark_after m (blank_lines ks ++ sps n)) in *.
     assert (Hcol1 : m_col m1 = N.of_nat n) by (apply col_after_blank_lines; exact Hcol).
-    assert (Hne' : sps e ++ txt <> []).
-    { destruct Hne as [He|Hs']; [destruct e; [congruence|discriminate]|destruct e; [exact Hs'|discriminate]]. }
+    destruct (rlk_facts n lk1) as [Hrl1 Hrl2].
     destruct (IH tks j r' F literal n f
                  (rev (sps e ++ txt) ++ fold_sep literal acc 1 (N.of_nat (length ks)) lbk (is_blank (hd0 (sps e ++ txt))))
-                 (is_blank (hd0 (sps e ++ txt))) s (Nat.max lk1 2) (nlm (mark_after m1 (sps e ++ txt))))
+                 (is_blank (hd0 (sps e ++ txt))) s (rlk n lk1) (nlm (mark_after m1 (sps e ++ txt))))
       as [lk' [Hle [Hne2 Hrec]]]; auto.
     { cbn [length] in Hf. lia. }
     exists lk'. split; [lia|]. split; [exact Hne2|].
     mstep ltac:(exact Hs). rewrite N.add_0_l.
     replace (sps e ++ txt ++ 10 :: REST) with ((sps e ++ txt) ++ 10 :: REST) by (rewrite <- app_assoc; reflexivity).
-    rewrite bs_loop_round; auto; [|apply nobreak_sps_app; exact Hnb|rewrite app_length; unfold sps; rewrite repeat_length; lia].
+    rewrite bs_loop_round; auto.
+    2: { intros Hn0. apply (doc_end_content n ks e txt (10 :: REST)); auto. }
     subst REST. rewrite Hrec. cbn [acc_chunks].
     rewrite (mark_after_app m (chunk_text n (ks, e, txt) ++ flat_map (chunk_text n) chunks)).
     rewrite (mark_after_app m (chunk_text n (ks, e, txt))), mark_after_chunk. fold m1.
@@ -1095,7 +1229,8 @@ Lemma scan_to_loop : forall (P : outcome (token * sc strin) -> Prop) (s : sc str
   si_chars (sc_in s) = header literal c explicit digit_first ++ hc ++ 10 :: blank_lines ks1 ++ sps (n + e1) ++ txt1 ++ TAIL ->
   unroll_nb (sc_indents s) (sc_indent s) = (pz, inds) ->
   header_tail hc -> (2 * length hc + 2 < F)%nat ->
-  n <> O -> chunk_ok F n (ks1, e1, txt1) -> (TAIL = [] \/ hd0 TAIL = 10) ->
+  hd0 (blank_lines ks1 ++ sps (n + e1) ++ txt1 ++ TAIL) <> 9 ->
+  chunk_ok F n (ks1, e1, txt1) -> (TAIL = [] \/ hd0 TAIL = 10) ->
   match explicit with
   | Some d => (1 <= d <= 9)%nat /\ N.of_nat n = (if (0 <=? pz)%Z then Z.to_N (pz + Z.of_N (N.of_nat d)) else N.of_nat d)
   | None => Z.to_N (pz + 1) <= N.of_nat n /\ e1 = O /\ txt1 <> []
@@ -1108,7 +1243,6 @@ Proof.
   intros P s F literal c explicit digit_first hc ks1 e1 txt1 TAIL n pz inds Hchars Hun Hhc HFhc Hn Hc1 HT Hind Hk.
   destruct Hc1 as [Hks1 [Hnb1 [Hhd1 [Hne1 [Hks1F [Hks1L Hlen1]]]]]].
   apply (scan_header P s F literal c explicit digit_first hc (blank_lines ks1 ++ sps (n + e1) ++ txt1 ++ TAIL) pz inds); auto.
-  { destruct ks1 as [|[|k0] ks1]; [destruct n; [congruence|]| |]; intro H; cbv in H; discriminate H. }
   { destruct explicit; tauto. }
   intros lk1 mh Hlk1 Hmh Hline.
   set (s1 := set_indent pz inds s).
@@ -1123,7 +1257,9 @@ Proof.
                           mv s1 ((sps e1 ++ txt1) ++ TAIL) lk2 (mark_after mh (blank_lines ks1 ++ sps n)) true))
   end.
   { destruct explicit as [d|]; cbn [inc_of].
-    - destruct Hind as [Hd9 Hind]. rewrite <- Hind.
+    - destruct Hind as [Hd9 Hind].
+      assert (Hn0 : n <> O) by (destruct (0 <=? pz)%Z eqn:E; [apply Z.leb_le in E|]; lia).
+      rewrite <- Hind.
       destruct (N.ltb_spec 0 (N.of_nat d)) as [_|Hbad]; [|lia].
       destruct (N.eqb_spec (N.of_nat n) 0) as [Hbad|_]; [lia|].
       destruct (skip_block_scalar_indent_spec ks1 (n + e1) (txt1 ++ TAIL) F F (N.of_nat n) 0 s1 lk1 mh)
@@ -1149,7 +1285,7 @@ Proof.
       rewrite Hmax.
       replace (if (0 <? pz)%Z then N.max (N.max (N.max 0 (N.of_nat n)) (Z.to_N (pz + 1))) 1
                else N.max (N.max 0 (N.of_nat n)) (Z.to_N (pz + 1))) with (N.of_nat n)
-        by (destruct (0 <? pz)%Z; lia).
+        by (destruct (Z.ltb_spec 0 pz); lia).
       reflexivity. }
   destruct Hib as [lk2 [Hne2 Hib]].
   pstep ltac:(exact Hib).
@@ -1166,14 +1302,7 @@ Proof.
   exact (Hk s1 lk2 m2 Hne2 Hcol2).
 Qed.
 
-Lemma chunk_content_facts F n ks e (txt : list chr) : chunk_ok F n (ks, e, txt) ->
-  sps e ++ txt <> [] /\ nobreak (sps e ++ txt) /\ (length (sps e ++ txt) < F)%nat.
-Proof.
-  intros [_ [Hnb [_ [Hne [_ [_ Hlen]]]]]]. split; [|split].
-  - destruct Hne as [He|Hs']; [destruct e; [congruence|discriminate]|destruct e; [exact Hs'|discriminate]].
-  - apply nobreak_sps_app; exact Hnb.
-  - rewrite app_length; unfold sps; rewrite repeat_length; lia.
-Qed.
+
 
 (* every line terminated by a line feed, then a less indented line (or the end of the input) *)
 Theorem block_scalar_chunks : forall (s : sc strin) F literal c (explicit : option nat) (digit_first : bool) (hc : list chr)
@@ -1182,33 +1311,40 @@ Theorem block_scalar_chunks : forall (s : sc strin) F literal c (explicit : opti
   si_chars (sc_in s) = render_block n literal c explicit digit_first hc lines (EofRest (sps j ++ r')) ->
   unroll_nb (sc_indents s) (sc_indent s) = (pz, inds) ->
   header_tail hc -> (2 * length hc + 2 < F)%nat ->
-  n <> O -> Forall (chunk_ok F n) (ck :: chunks) ->
+  hd0 (chunk_text_nolf n ck) <> 9 -> Forall (chunk_ok F n) (ck :: chunks) -> Forall (chunk_col0 n) (ck :: chunks) ->
   Forall (fun k => (k <= n)%nat) tks -> Forall (fun k => (k < F)%nat) tks -> (length tks < F)%nat ->
-  (j < n)%nat -> hd0 r' <> 32 -> is_break (hd0 r') = false -> (S (length chunks) < F)%nat ->
+  ends_after n j r' -> hd0 r' <> 32 -> is_break (hd0 r') = false -> (S (length chunks) < F)%nat ->
   match explicit with
   | Some d => (1 <= d <= 9)%nat /\ N.of_nat n = (if (0 <=? pz)%Z then Z.to_N (pz + Z.of_N (N.of_nat d)) else N.of_nat d)
   | None => Z.to_N (pz + 1) <= N.of_nat n /\ (let '(ks, e, txt) := ck in e = O /\ txt <> [])
   end ->
   yields literal (block_value literal c lines) r' (scan_block_scalar str_ops F literal s).
 Proof.
-  intros s F literal c explicit digit_first hc ck chunks tks j r' n pz inds lines Hchars Hun Hhc HFhc Hn Hch Htks HtksF HtksL Hj Hr Hrb HchL Hind.
+  intros s F literal c explicit digit_first hc ck chunks tks j r' n pz inds lines Hchars Hun Hhc HFhc Htab Hch Hc0 Htks HtksF HtksL Hj Hr Hrb HchL Hind.
   destruct ck as [[ks1 e1] txt1].
   pose proof (Forall_inv Hch) as Hc1. pose proof (Forall_inv_tail Hch) as Hch'.
+  pose proof (Forall_inv Hc0) as Hcc1. pose proof (Forall_inv_tail Hc0) as Hc0'.
   set (REST := flat_map (chunk_text n) chunks ++ blank_lines tks ++ sps j ++ r').
   apply (scan_to_loop _ s F literal c explicit digit_first hc ks1 e1 txt1 (10 :: REST) n pz inds); auto.
   { rewrite Hchars. unfold render_block. cbn [app]. unfold lines. rewrite flat_map_shift, render_chunks.
     subst REST. cbn [flat_map chunk_text]. rewrite <- !app_assoc. reflexivity. }
+  { apply (tab_tail F); assumption. }
   intros s1 lk2 m2 Hne2 Hcol2.
   destruct (chunk_content_facts _ _ _ _ _ Hc1) as [Hne' [Hnbt Hlen]].
   assert (HnF : (n < F)%nat) by (destruct Hc1 as [_ [_ [_ [_ [_ [_ Hl]]]]]]; lia).
+  assert (HjF : (j < F)%nat) by (destruct Hj as [H|[_ [-> _]]]; lia).
+  assert (Hjm : (j < Nat.max n 1)%nat) by (destruct Hj as [H|[_ [-> _]]]; lia).
   assert (HF : exists F', F = S F') by (destruct F; [lia|eexists; reflexivity]).
   destruct HF as [F' HF].
   replace (bs_loop F literal (N.of_nat n) F) with (bs_loop F literal (N.of_nat n) (S F')) by (rewrite HF; reflexivity).
+  destruct (rlk_facts n lk2) as [Hrl1 Hrl2].
   destruct (bs_loop_chunks chunks tks j r' F literal n F'
               (rev (sps e1 ++ txt1) ++ fold_sep literal [] 0 (N.of_nat (length ks1)) false (is_blank (hd0 (sps e1 ++ txt1))))
-              (is_blank (hd0 (sps e1 ++ txt1))) s1 (Nat.max lk2 2) (nlm (mark_after m2 (sps e1 ++ txt1))))
+              (is_blank (hd0 (sps e1 ++ txt1))) s1 (rlk n lk2) (nlm (mark_after m2 (sps e1 ++ txt1))))
     as [lk3 [Hle3 [Hne3 Hloop]]]; auto; try lia.
-  pstep ltac:(rewrite bs_loop_round; [exact Hloop|exact Hnbt|exact Hne'|exact Hn|exact Hcol2|exact Hlen]).
+  assert (Hde : n = O -> doc_end_b ((sps e1 ++ txt1) ++ 10 :: REST) = false).
+  { intros Hn0. apply (doc_end_content n ks1 e1 txt1 (10 :: REST)); auto. destruct Hc1 as [_ [Hnb _]]. exact Hnb. }
+  pstep ltac:(rewrite bs_loop_round; [exact Hloop|exact Hnbt|exact Hne'|exact Hde|exact Hcol2|exact Hlen]).
   unfold bs_finish.
   pstep ltac:(apply next_is_mv). pstep ltac:(apply col_mv). pstep ltac:(apply mark_mv).
   assert (Hcolend : forall m, m_col m = 0 ->
@@ -1232,41 +1368,46 @@ Qed.
 (* ------------------------------------------------------------------------------------------ *)
 (* the end of the input right after the last content line (no final line break)                *)
 (* ------------------------------------------------------------------------------------------ *)
-Definition chunk_text_nolf (n : nat) (c : chunk) : list chr :=
-  let '(ks, e, s) := c in blank_lines ks ++ sps (n + e) ++ s.
 
 Lemma bs_loop_round_eof : forall (txt : list chr) F literal n f acc lb tb lbk s lk m w,
-  nobreak txt -> txt <> [] -> n <> O -> m_col m = N.of_nat n -> (length txt < F)%nat ->
+  nobreak txt -> txt <> [] -> (n = O -> doc_end_b (txt ++ []) = false) -> m_col m = N.of_nat n -> (length txt < F)%nat ->
   bs_loop F literal (N.of_nat n) (S f) acc lb tb lbk (mv s (txt ++ []) lk m w)
   = Ok ((rev txt ++ fold_sep literal acc lb tb lbk (is_blank (hd0 txt)), 0, 0),
-        mv s [] (Nat.max lk 2) (mark_after m txt) w).
+        mv s [] (rlk n lk) (mark_after m txt) w).
 Proof.
   intros txt F literal n f acc lb tb lbk s lk m w Hnb Hne Hn Hcol HF.
   cbn [bs_loop].
   mstep ltac:(apply col_mv). mstep ltac:(apply next_is_mv).
   rewrite Hcol, N.eqb_refl. rewrite (hd0_app_ne txt) by exact Hne.
   destruct (breakz_parts _ (nobreak_hd0 _ Hnb Hne)) as [Hz Hb]. rewrite Hz. cbn [negb orb].
-  destruct (N.eqb_spec (N.of_nat n) 0) as [E|_]; [lia|].
-  mstep ltac:(reflexivity). mstep ltac:(apply next_is_mv). rewrite (hd0_app_ne txt) by exact Hne.
-  fold (fold_sep literal acc lb tb lbk (is_blank (hd0 txt))).
-  mstep ltac:(apply content_line_spec; [exact Hnb|reflexivity|exact HF]).
-  mstep ltac:(apply look_mv). mstep ltac:(apply next_is_mv). reflexivity.
+  destruct (N.eqb_spec (N.of_nat n) 0) as [E|E].
+  - assert (En : n = O) by lia. subst n. cbn [rlk].
+    mstep ltac:(mstep ltac:(apply look_mv); apply next_is_document_end_mv; lia). rewrite (Hn eq_refl).
+    mstep ltac:(apply next_is_mv). rewrite (hd0_app_ne txt) by exact Hne.
+    fold (fold_sep literal acc lb tb lbk (is_blank (hd0 txt))).
+    mstep ltac:(apply content_line_spec; [exact Hnb|reflexivity|exact HF]).
+    mstep ltac:(apply look_mv). mstep ltac:(apply next_is_mv). reflexivity.
+  - destruct n as [|n']; [lia|]. cbn [rlk].
+    mstep ltac:(reflexivity). mstep ltac:(apply next_is_mv). rewrite (hd0_app_ne txt) by exact Hne.
+    fold (fold_sep literal acc lb tb lbk (is_blank (hd0 txt))).
+    mstep ltac:(apply content_line_spec; [exact Hnb|reflexivity|exact HF]).
+    mstep ltac:(apply look_mv). mstep ltac:(apply next_is_mv). reflexivity.
 Qed.
 
 Lemma col_after_text (txt : list chr) m : nobreak txt -> m_col (mark_after m txt) = m_col m + N.of_nat (length txt).
 Proof. intros H. rewrite (mark_after_nolf _ (nobreak_nolf _ H)). reflexivity. Qed.
 
 Lemma bs_loop_chunks_eof : forall (cs : list chunk) (cl : chunk) F literal n f acc lbk s lk m,
-  n <> O -> Forall (chunk_ok F n) (cs ++ [cl]) -> (n < F)%nat ->
+  Forall (chunk_ok F n) (cs ++ [cl]) -> Forall (chunk_col0 n) (cs ++ [cl]) -> (n < F)%nat ->
   m_col m = 0 -> (length cs < f)%nat ->
-  exists lk' mend, lk' <> O /\ N.of_nat n <= m_col mend /\
+  exists lk' mend, lk' <> O /\ N.max (N.of_nat n) 1 <= m_col mend /\
   (tb <- skip_block_scalar_indent str_ops F F (N.of_nat n) 0 ;; bs_loop F literal (N.of_nat n) f acc 1 tb lbk)
     (mv s (flat_map (chunk_text n) cs ++ chunk_text_nolf n cl ++ []) lk m true)
   = Ok ((acc_chunks literal acc 1 lbk (cs ++ [cl]), 0, 0), mv s [] lk' mend true).
 Proof.
-  induction cs as [|[[ks e] txt] cs IH]; intros cl F literal n f acc lbk s lk m Hn Hch HnF Hcol Hf.
+  induction cs as [|[[ks e] txt] cs IH]; intros cl F literal n f acc lbk s lk m Hch Hc0 HnF Hcol Hf.
   - destruct cl as [[ks e] txt]. cbn [flat_map app chunk_text_nolf] in *.
-    pose proof (Forall_inv Hch) as Hc. destruct (chunk_content_facts _ _ _ _ _ Hc) as [Hne' [Hnbt Hlen']].
+    pose proof (Forall_inv Hch) as Hc. pose proof (Forall_inv Hc0) as Hcc. destruct (chunk_content_facts _ _ _ _ _ Hc) as [Hne' [Hnbt Hlen']].
     destruct Hc as [Hks [Hnb [Hhd [Hne [HksF [HksL Hlen]]]]]].
     rewrite <- !app_assoc.
     assert (Hhd' : hd0 (txt ++ []) <> 32).
@@ -1283,12 +1424,15 @@ Proof.
     destruct f as [|f]; [cbn in Hf; lia|].
     set (m1 := mark_after m (blank_lines ks ++ sps n)) in *.
     assert (Hcol1 : m_col m1 = N.of_nat n) by (apply col_after_blank_lines; exact Hcol).
-    exists (Nat.max lk1 2), (mark_after m1 (sps e ++ txt)). split; [lia|]. split.
-    { rewrite col_after_text by exact Hnbt. lia. }
+    destruct (rlk_facts n lk1) as [Hrl1 Hrl2].
+    exists (rlk n lk1), (mark_after m1 (sps e ++ txt)). split; [exact Hrl2|]. split.
+    { rewrite col_after_text by exact Hnbt. destruct (sps e ++ txt) as [|c0 t0]; [congruence|]. cbn [length]. lia. }
     mstep ltac:(exact Hs). rewrite N.add_0_l.
     replace (sps e ++ txt ++ []) with ((sps e ++ txt) ++ []) by (rewrite <- app_assoc; reflexivity).
     rewrite bs_loop_round_eof; auto.
+    intros Hn0. apply (doc_end_content n ks e txt []); auto.
   - pose proof (Forall_inv Hch) as Hc. pose proof (Forall_inv_tail Hch) as Hch'. fold (cs ++ [cl]) in Hch'.
+    pose proof (Forall_inv Hc0) as Hcc. pose proof (Forall_inv_tail Hc0) as Hc0'. fold (cs ++ [cl]) in Hc0'.
     destruct (chunk_content_facts _ _ _ _ _ Hc) as [Hne' [Hnbt Hlen']].
     destruct Hc as [Hks [Hnb [Hhd [Hne [HksF [HksL Hlen]]]]]].
     cbn [flat_map]. fold (flat_map (chunk_text n) cs).
@@ -1313,13 +1457,14 @@ Proof.
     assert (Hcol1 : m_col m1 = N.of_nat n) by (apply col_after_blank_lines; exact Hcol).
     destruct (IH cl F literal n f
                  (rev (sps e ++ txt) ++ fold_sep literal acc 1 (N.of_nat (length ks)) lbk (is_blank (hd0 (sps e ++ txt))))
-                 (is_blank (hd0 (sps e ++ txt))) s (Nat.max lk1 2) (nlm (mark_after m1 (sps e ++ txt))))
+                 (is_blank (hd0 (sps e ++ txt))) s (rlk n lk1) (nlm (mark_after m1 (sps e ++ txt))))
       as [lk' [mend [Hne2 [Hcm Hrec]]]]; auto.
     { cbn [length] in Hf. lia. }
     exists lk', mend. split; [exact Hne2|]. split; [exact Hcm|].
     mstep ltac:(exact Hs). rewrite N.add_0_l.
     replace (sps e ++ txt ++ 10 :: REST) with ((sps e ++ txt) ++ 10 :: REST) by (rewrite <- app_assoc; reflexivity).
     rewrite bs_loop_round; auto.
+    intros Hn0. apply (doc_end_content n ks e txt (10 :: REST)); auto.
 Qed.
 
 Lemma render_chunks_eof n : forall (cs : list chunk) (cl : chunk),
@@ -1343,14 +1488,15 @@ Theorem block_scalar_chunks_eof : forall (s : sc strin) F literal c (explicit : 
   si_chars (sc_in s) = render_block n literal c explicit digit_first hc lines EofNone ->
   unroll_nb (sc_indents s) (sc_indent s) = (pz, inds) ->
   header_tail hc -> (2 * length hc + 2 < F)%nat ->
-  n <> O -> Forall (chunk_ok F n) (cs ++ [cl]) -> (S (length cs) < F)%nat ->
+  hd0 (chunk_text_nolf n (hd cl cs)) <> 9 ->
+  Forall (chunk_ok F n) (cs ++ [cl]) -> Forall (chunk_col0 n) (cs ++ [cl]) -> (S (length cs) < F)%nat ->
   match explicit with
   | Some d => (1 <= d <= 9)%nat /\ N.of_nat n = (if (0 <=? pz)%Z then Z.to_N (pz + Z.of_N (N.of_nat d)) else N.of_nat d)
   | None => Z.to_N (pz + 1) <= N.of_nat n /\ (let '(ks, e, txt) := hd cl cs in e = O /\ txt <> [])
   end ->
   yields literal (block_value literal c lines) [] (scan_block_scalar str_ops F literal s).
 Proof.
-  intros s F literal c explicit digit_first hc cs cl n pz inds lines Hchars Hun Hhc HFhc Hn Hch HchL Hind.
+  intros s F literal c explicit digit_first hc cs cl n pz inds lines Hchars Hun Hhc HFhc Htab Hch Hc0 HchL Hind.
   assert (Eval : block_value literal c lines =
                  rev (match to_model c with Keep => nls (N.of_nat 0) | _ => fun a => a end
                         (match to_model c with
@@ -1369,34 +1515,42 @@ Proof.
   destruct cs as [|[[ks1 e1] txt1] cs].
   - (* a single content line *)
     destruct cl as [[ks1 e1] txt1]. cbn [app flat_map chunk_text_nolf hd] in *.
-    pose proof (Forall_inv Hch) as Hc1.
+    pose proof (Forall_inv Hch) as Hc1. pose proof (Forall_inv Hc0) as Hcc1.
+    destruct (chunk_content_facts _ _ _ _ _ Hc1) as [Hne' [Hnbt Hlen]].
     apply (scan_to_loop _ s F literal c explicit digit_first hc ks1 e1 txt1 [] n pz inds); auto.
     { rewrite Hchars, !app_nil_r. reflexivity. }
+    { apply (tab_tail F); assumption. }
     intros s1 lk2 m2 Hne2 Hcol2.
-    destruct (chunk_content_facts _ _ _ _ _ Hc1) as [Hne' [Hnbt Hlen]].
     replace (bs_loop F literal (N.of_nat n) F) with (bs_loop F literal (N.of_nat n) (S F')) by (rewrite HF; reflexivity).
+    assert (Hde : n = O -> doc_end_b ((sps e1 ++ txt1) ++ []) = false).
+    { intros Hn0. apply (doc_end_content n ks1 e1 txt1 []); auto. destruct Hc1 as [_ [Hnb _]]. exact Hnb. }
     pstep ltac:(apply bs_loop_round_eof; auto).
     unfold bs_finish.
     pstep ltac:(apply next_is_mv). pstep ltac:(apply col_mv). pstep ltac:(apply mark_mv).
     change (is_z (hd0 [])) with true. rewrite col_after_text by exact Hnbt.
-    destruct (N.leb_spec (N.max (N.of_nat n) 1) (m_col m2 + N.of_nat (length (sps e1 ++ txt1)))) as [_|Hbad]; [|lia].
+    destruct (N.leb_spec (N.max (N.of_nat n) 1) (m_col m2 + N.of_nat (length (sps e1 ++ txt1)))) as [_|Hbad];
+      [|destruct (sps e1 ++ txt1) as [|c0 t0]; [congruence|cbn [length] in Hbad; lia]].
     rewrite Eval. unfold yields. eexists. eexists. split.
     + destruct c; reflexivity.
     + reflexivity.
   - cbn [app flat_map hd] in *.
     pose proof (Forall_inv Hch) as Hc1. pose proof (Forall_inv_tail Hch) as Hch'.
+    pose proof (Forall_inv Hc0) as Hcc1. pose proof (Forall_inv_tail Hc0) as Hc0'.
     set (REST := flat_map (chunk_text n) cs ++ chunk_text_nolf n cl ++ []).
+    destruct (chunk_content_facts _ _ _ _ _ Hc1) as [Hne' [Hnbt Hlen]].
     apply (scan_to_loop _ s F literal c explicit digit_first hc ks1 e1 txt1 (10 :: REST) n pz inds); auto.
     { rewrite Hchars. subst REST. cbn [chunk_text]. rewrite <- !app_assoc, !app_nil_r. reflexivity. }
+    { apply (tab_tail F); assumption. }
     intros s1 lk2 m2 Hne2 Hcol2.
-    destruct (chunk_content_facts _ _ _ _ _ Hc1) as [Hne' [Hnbt Hlen]].
     replace (bs_loop F literal (N.of_nat n) F) with (bs_loop F literal (N.of_nat n) (S F')) by (rewrite HF; reflexivity).
     destruct (bs_loop_chunks_eof cs cl F literal n F'
                 (rev (sps e1 ++ txt1) ++ fold_sep literal [] 0 (N.of_nat (length ks1)) false (is_blank (hd0 (sps e1 ++ txt1))))
-                (is_blank (hd0 (sps e1 ++ txt1))) s1 (Nat.max lk2 2) (nlm (mark_after m2 (sps e1 ++ txt1))))
+                (is_blank (hd0 (sps e1 ++ txt1))) s1 (rlk n lk2) (nlm (mark_after m2 (sps e1 ++ txt1))))
       as [lk3 [mend [Hne3 [Hcm Hloop]]]]; auto.
     { cbn [length] in HchL. lia. }
-    pstep ltac:(rewrite bs_loop_round; [exact Hloop|exact Hnbt|exact Hne'|exact Hn|exact Hcol2|exact Hlen]).
+    assert (Hde : n = O -> doc_end_b ((sps e1 ++ txt1) ++ 10 :: REST) = false).
+    { intros Hn0. apply (doc_end_content n ks1 e1 txt1 (10 :: REST)); auto. destruct Hc1 as [_ [Hnb _]]. exact Hnb. }
+    pstep ltac:(rewrite bs_loop_round; [exact Hloop|exact Hnbt|exact Hne'|exact Hde|exact Hcol2|exact Hlen]).
     unfold bs_finish.
     pstep ltac:(apply next_is_mv). pstep ltac:(apply col_mv). pstep ltac:(apply mark_mv).
     change (is_z (hd0 [])) with true.
@@ -1480,6 +1634,30 @@ Proof.
   - apply IH. exact H.
 Qed.
 
+Definition line_col0 (n : nat) (l : bline) : Prop :=
+  match l with Text e s => n = O -> e = O -> marker_line s = false | Blank _ => True end.
+(* the first character after the header line *)
+Definition first_char (n : nat) (lines : list bline) : chr := hd0 (flat_map (fun l => render_line n l ++ [LF]) lines).
+
+Lemma split_lines_col0 n : forall ls ks cs t, split_lines ls ks = (cs, t) ->
+  Forall (line_col0 n) ls -> Forall (chunk_col0 n) cs.
+Proof.
+  induction ls as [|[e s|k] r IH]; intros ks cs t H Hls; cbn [split_lines] in H.
+  - inversion H; subst. constructor.
+  - destruct (split_lines r []) as [cs' t'] eqn:E. inversion H; subst.
+    constructor; [exact (Forall_inv Hls)|]. apply (IH [] cs' t E). exact (Forall_inv_tail Hls).
+  - apply (IH (k :: ks) cs t H). exact (Forall_inv_tail Hls).
+Qed.
+
+Lemma first_char_chunk F n ck cs t : chunk_ok F n ck ->
+  first_char n (flat_map chunk_lines (ck :: cs) ++ map Blank t) = hd0 (chunk_text_nolf n ck).
+Proof.
+  intros Hc. unfold first_char. rewrite render_chunks. cbn [flat_map]. destruct ck as [[ks e] txt].
+  replace (chunk_text n (ks, e, txt)) with (chunk_text_nolf n (ks, e, txt) ++ [10])
+    by (cbn [chunk_text chunk_text_nolf]; rewrite <- !app_assoc; reflexivity).
+  rewrite <- !app_assoc. apply hd0_app_ne. apply (chunk_nolf_ne F). exact Hc.
+Qed.
+
 (* (T4) literal style, explicit or auto-detected indentation, any chomping: every list of content lines (of any extra
    indentation, whitespace-only content lines included) and blank lines, with at least one content line, each line
    terminated by a line feed, followed by a less indented line or the end of the input *)
@@ -1488,20 +1666,25 @@ Theorem block_scalar_lines : forall (s : sc strin) F literal c (explicit : optio
   si_chars (sc_in s) = render_block n literal c explicit digit_first hc lines (EofRest (sps j ++ r')) ->
   unroll_nb (sc_indents s) (sc_indent s) = (pz, inds) ->
   header_tail hc -> (2 * length hc + 2 < F)%nat ->
-  n <> O -> Forall (line_ok F n) lines -> (S (length lines) < F)%nat -> has_text lines = true ->
-  (j < n)%nat -> hd0 r' <> 32 -> is_break (hd0 r') = false -> (r' = [] -> j = O) ->
+  Forall (line_ok F n) lines -> Forall (line_col0 n) lines -> (n = O -> first_char n lines <> 9) ->
+  (S (length lines) < F)%nat -> has_text lines = true ->
+  ends_after n j r' -> hd0 r' <> 32 -> is_break (hd0 r') = false -> (r' = [] -> j = O) ->
   match explicit with
   | Some d => (1 <= d <= 9)%nat /\ N.of_nat n = (if (0 <=? pz)%Z then Z.to_N (pz + Z.of_N (N.of_nat d)) else N.of_nat d)
   | None => Z.to_N (pz + 1) <= N.of_nat n /\ exists txt, first_text lines = Some (O, txt) /\ txt <> []
   end ->
   yields literal (block_value literal c lines) r' (scan_block_scalar str_ops F literal s).
 Proof.
-  intros s F literal c explicit digit_first hc lines j r' n pz inds Hchars Hun Hhc HFhc Hn Hls Hlen Htext Hj Hr Hrb _ Hind.
+  intros s F literal c explicit digit_first hc lines j r' n pz inds Hchars Hun Hhc HFhc Hls Hl0 Hfc Hlen Htext Hj Hr Hrb _ Hind.
   destruct (split_lines lines []) as [cs t] eqn:E.
   pose proof (split_lines_spec lines [] cs t E) as Hsp. cbn [rev map app] in Hsp.
   destruct (split_lines_ok F n lines [] cs t E Hls) as [Hcs [Ht1 [Ht2 [Ht3 Ht4]]]]; [constructor|cbn [length]; lia|].
+  pose proof (split_lines_col0 n lines [] cs t E Hl0) as Hcs0.
   pose proof (split_lines_text lines [] Htext) as Hne. rewrite E in Hne. cbn [fst] in Hne.
   destruct cs as [|ck cs]; [congruence|].
+  assert (Htab : hd0 (chunk_text_nolf n ck) <> 9).
+  { destruct n as [|n']; [|apply tab_pos; discriminate].
+    rewrite <- (first_char_chunk F O ck cs t (Forall_inv Hcs)), <- Hsp. apply Hfc. reflexivity. }
   assert (Hft0 := Hind). rewrite Hsp in Hchars |- *.
   apply (block_scalar_chunks s F literal c explicit digit_first hc ck cs t j r' n pz inds); auto.
   - cbn [length] in Ht4. lia.
@@ -1518,7 +1701,8 @@ Theorem block_scalar_lines_eof : forall (s : sc strin) F literal c (explicit : o
   si_chars (sc_in s) = render_block n literal c explicit digit_first hc lines EofNone ->
   unroll_nb (sc_indents s) (sc_indent s) = (pz, inds) ->
   header_tail hc -> (2 * length hc + 2 < F)%nat ->
-  n <> O -> Forall (line_ok F n) lines -> (S (length lines) < F)%nat -> has_text lines = true ->
+  Forall (line_ok F n) lines -> Forall (line_col0 n) lines -> (n = O -> first_char n lines <> 9) ->
+  (S (length lines) < F)%nat -> has_text lines = true ->
   trailing_blanks lines = O ->
   match explicit with
   | Some d => (1 <= d <= 9)%nat /\ N.of_nat n = (if (0 <=? pz)%Z then Z.to_N (pz + Z.of_N (N.of_nat d)) else N.of_nat d)
@@ -1526,19 +1710,26 @@ Theorem block_scalar_lines_eof : forall (s : sc strin) F literal c (explicit : o
   end ->
   yields literal (block_value literal c lines) [] (scan_block_scalar str_ops F literal s).
 Proof.
-  intros s F literal c explicit digit_first hc lines n pz inds Hchars Hun Hhc HFhc Hn Hls Hlen Htext Htb Hind.
+  intros s F literal c explicit digit_first hc lines n pz inds Hchars Hun Hhc HFhc Hls Hl0 Hfc Hlen Htext Htb Hind.
   destruct (split_lines lines []) as [cs t] eqn:E.
   pose proof (split_lines_spec lines [] cs t E) as Hsp. cbn [rev map app] in Hsp.
   destruct (split_lines_ok F n lines [] cs t E Hls) as [Hcs [Ht1 [Ht2 [Ht3 Ht4]]]]; [constructor|cbn [length]; lia|].
+  pose proof (split_lines_col0 n lines [] cs t E Hl0) as Hcs0.
   pose proof (split_lines_text lines [] Htext) as Hne. rewrite E in Hne. cbn [fst] in Hne.
   assert (Ht : t = []).
   { rewrite Hsp in Htb. destruct (chunks_trailing cs t Hne) as [Hl _]. rewrite Hl in Htb.
     destruct t; [reflexivity|discriminate]. }
   subst t. cbn [map] in Hsp. rewrite app_nil_r in Hsp.
   destruct (exists_last Hne) as [front [cl Ecs]].
-  assert (Hfirst : explicit = None -> exists txt, first_text lines = Some (O, txt) /\ txt <> [] ->
-                   True) by (intros _; exists []; tauto).
-  clear Hfirst.
+  assert (Htab : hd0 (chunk_text_nolf n (hd cl front)) <> 9).
+  { destruct n as [|n']; [|apply tab_pos; discriminate].
+    assert (Efc : first_char O lines = hd0 (chunk_text_nolf O (hd cl front))).
+    { rewrite Hsp, Ecs. destruct front as [|x front]; cbn [app hd].
+      - rewrite <- (app_nil_r (flat_map chunk_lines [cl])). change (@nil bline) with (map Blank []).
+        apply (first_char_chunk F). rewrite Ecs in Hcs. exact (Forall_inv Hcs).
+      - rewrite <- (app_nil_r (flat_map chunk_lines (x :: front ++ [cl]))). change (@nil bline) with (map Blank []).
+        apply (first_char_chunk F). rewrite Ecs in Hcs. exact (Forall_inv Hcs). }
+    rewrite <- Efc. apply Hfc. reflexivity. }
   assert (Hind' : match explicit with
                   | Some d => (1 <= d <= 9)%nat /\ N.of_nat n = (if (0 <=? pz)%Z then Z.to_N (pz + Z.of_N (N.of_nat d)) else N.of_nat d)
                   | None => Z.to_N (pz + 1) <= N.of_nat n /\ (let '(ks, e, txt) := hd cl front in e = O /\ txt <> [])
